@@ -15,8 +15,16 @@ fn multiset(v: &[SpacePoint]) -> Vec<[u64; 3]> {
 
 /// independent single-linkage connectivity (union-find) under the 3 cm rule
 fn connected(points: &[SpacePoint]) -> bool {
-    let n = points.len();
-    let c: Vec<[f64; 3]> = points.iter().map(xyz).collect();
+    // bit-identical copies are at distance 0 of each other: connectivity is decided on the distinct points
+    let mut uniq: Vec<&SpacePoint> = Vec::new();
+    let mut seen = std::collections::HashSet::new();
+    for p in points {
+        if seen.insert(bits3(p)) {
+            uniq.push(p);
+        }
+    }
+    let n = uniq.len();
+    let c: Vec<[f64; 3]> = uniq.iter().map(|p| xyz(p)).collect();
     let mut parent: Vec<usize> = (0..n).collect();
     fn find(p: &mut Vec<usize>, i: usize) -> usize {
         let mut r = i;
@@ -227,6 +235,37 @@ pub fn run(args: &Args) -> i32 {
         let tracks = check_clustering(pts, what.clone(), loc);
         check_vertex_partition(tracks, what, loc);
     });
+    // one point repeated up to and beyond the limits of narrow counters (u8, u16) inside a track and alone
+    let reps: Vec<usize> = if thorough { vec![31, 100, 254, 255, 256, 257, 300, 1000, 65535, 65536, 65537] } else { vec![31, 100, 254, 255, 256, 257, 300, 1000] };
+    rep.run("massive-duplicates", reps.len() as u64 * 2, 600, true, "one space point repeated {31, 100, 254..257, 300, 1000; thorough: 65535..65537} times x {inside a 20-point track, on its own}", |k, loc| {
+        let n = reps[(k / 2) as usize];
+        let mut p = if k % 2 == 0 { bases[0].1.clone() } else { Vec::new() };
+        let x = bases[0].1[5];
+        p.extend(std::iter::repeat(x).take(n));
+        let what = json!({"family": "massive-duplicates", "copies": n, "inside_a_track": k % 2 == 0});
+        check_clustering(p, what, loc);
+    });
+    // find_vertices on every ORDERED list of up to 4 template tracks (a repeated track with other tracks in between)
+    rep.run("track-sequences", 1 + 7 + 49 + 343 + 2401, 300, true, "every ordered list of 0..=4 tracks out of 7 template tracks (incl. lists like [a, b, a]) into find_vertices", |idx, loc| {
+        let t = template_tracks();
+        let mut x = idx;
+        let mut l = 0usize;
+        let mut block = 1u64;
+        while x >= block {
+            x -= block;
+            block *= 7;
+            l += 1;
+        }
+        let mut ids = Vec::new();
+        for _ in 0..l {
+            ids.push((x % 7) as usize);
+            x /= 7;
+        }
+        let set: Vec<Track> = ids.iter().map(|&i| t[i]).collect();
+        loc.note(hash64(&(ids.clone(), 9u8)), set.len() >= 2, "vertexed");
+        check_vertex_partition(set, json!({"template_sequence": ids}), loc);
+    });
+
     // the 3 cm relation at its threshold: two 14-point segments (2 mm spacing, each connected on its own) whose
     // closest points are 3 cm x (1 +- 10^-k) apart, along z, along r and along the azimuth
     rep.run("linkage-threshold", 3 * 29 * 4, 300, true, "two 14-point radial segments separated by a gap of 3 cm x (1 + s x 10^-k), s in {-1, +1}, k = 3..=16, and exactly 3 cm, along {z, r, azimuth} x 4 placements: a cluster may hold both segments only if the gap is within the 3 cm relation", |idx, loc| {
